@@ -857,9 +857,10 @@ func handleMessage(peer *Peer, m protocol.Message) error {
 		if len(peer.requested) >= reqQ {
 			// head drop
 			r := peer.requested[0]
+			peer.requested = peer.requested[1:]
 			err := reject(peer, r.Index, r.Begin, r.Length)
-			if err == nil {
-				peer.requested = peer.requested[1:]
+			if err != nil && err != ErrCongested {
+				return err
 			}
 		}
 		peer.requested = append(peer.requested,
